@@ -36,6 +36,8 @@ func init() {
 			ruleC01R5(r)
 			ruleC01R6(r, cut)
 			ruleC01R7(r, cut)
+			ruleC01R8(r)
+			ruleFlushRendezvous(r, "R9")
 		},
 	})
 }
@@ -604,4 +606,113 @@ func ruleC01R7(r *Run, cut *cutInfo) {
 		}
 	})
 	r.Check(cname+" points from the same group", okPts, p.pos(conv.Pos()), cname, "the group's points must come from DataPointGroup.DataPoints of the group being converted")
+}
+
+// ruleC01R8: the send buffer owns its slices.
+func ruleC01R8(r *Run) {
+	r.Begin("R8", "the send buffer owns its memory: every value stored into an element of Upstream.sendBuffer is a fresh slice (make) or append(x, …) whose base x is the buffer's own element or a fresh slice — never a slice handed in by the caller, which the caller may reuse while the chunk is buffered or kept for retransmission", 2)
+	p := r.P
+	n := 0
+	for _, fn := range p.Funcs {
+		if fnPkgPath(fn) != modPath+"/iscp" {
+			continue
+		}
+		allInstrs(fn, func(ins ssa.Instruction) {
+			mu, ok := ins.(*ssa.MapUpdate)
+			if !ok {
+				return
+			}
+			u, isU := mu.Map.(*ssa.UnOp)
+			if !isU || fieldKeyOfAddr(u.X) != fkSendBuffer {
+				return
+			}
+			n++
+			name := fnName(fn)
+			v := mu.Value
+			for {
+				if ct, isCT := v.(*ssa.ChangeType); isCT {
+					v = ct.X
+					continue
+				}
+				break
+			}
+			okv := false
+			detail := v.String()
+			switch x := v.(type) {
+			case *ssa.MakeSlice:
+				okv = true
+			case *ssa.Slice:
+				if _, isAlloc := x.X.(*ssa.Alloc); isAlloc {
+					okv = true
+				}
+			case *ssa.Call:
+				if b, isB := x.Call.Value.(*ssa.Builtin); isB && b.Name() == "append" {
+					bl := p.Leaves(x.Call.Args[0], provOpts{})
+					bad := leavesWithin(bl, []string{"elem:" + fkSendBuffer, "field:" + fkSendBuffer, "param:*", "field:/iscp.DataPointGroup.DataID", "recvfrom:*"})
+					fresh := hasLeaf(bl, "elem:"+fkSendBuffer) || hasLeafPrefix(bl, "alloc:")
+					okv = fresh && len(bad) == 0
+					detail = "append(base from [" + joinLeaves(bl) + "], …)"
+				}
+			}
+			r.Check(fmt.Sprintf("%s buffer store#%d", name, n), okv, posOf(p, mu), name, "value stored into the send buffer: "+detail)
+		})
+	}
+	if n == 0 {
+		r.Undecided("buffer stores", "no map update on Upstream.sendBuffer found")
+	}
+}
+
+// ruleFlushRendezvous: the explicit-flush hand-shake is a rendezvous that the requester can abandon.
+func ruleFlushRendezvous(r *Run, id string) {
+	r.Begin(id, "flush rendezvous: the explicit-flush request and result channels are unbuffered, and the select in which the flush loop hands back the result also watches the requester's own done channel (the value it received with the request) — otherwise an abandoned Flush leaves a stale result that a later Flush (e.g. the one inside Close) takes for its own", 3)
+	p := r.P
+	up := r.named("/iscp", "Upstream")
+	if up == nil {
+		return
+	}
+	for _, lit := range p.allLiterals(up) {
+		for _, f := range []string{"explicitlyFlushCh", "explicitlyFlushResultCh"} {
+			v, has := lit.Fields[f]
+			if !has {
+				continue
+			}
+			okc := false
+			if mk, isMk := canonVal(v).(*ssa.MakeChan); isMk {
+				if k, isK := constInt(mk.Size); isK && k == 0 {
+					okc = true
+				}
+			}
+			r.Check(fnName(lit.Fn)+" "+f+" unbuffered", okc, p.pos(lit.Alloc.Pos()), fnName(lit.Fn), f+" must be make(chan …) without a buffer: "+v.String())
+		}
+	}
+	for _, fn := range p.Funcs {
+		if recvTypeName(fn) != "Upstream" {
+			continue
+		}
+		allInstrs(fn, func(ins ssa.Instruction) {
+			sel, ok := ins.(*ssa.Select)
+			if !ok {
+				return
+			}
+			sends := false
+			for _, st := range sel.States {
+				if st.Dir == types.SendOnly && hasLeaf(p.Leaves(st.Chan, provOpts{}), "field:/iscp.Upstream.explicitlyFlushResultCh") {
+					sends = true
+				}
+			}
+			if !sends {
+				return
+			}
+			watches := false
+			for _, st := range sel.States {
+				if st.Dir == types.RecvOnly {
+					l := p.Leaves(st.Chan, provOpts{})
+					if hasLeaf(l, "recvfrom:/iscp.Upstream.explicitlyFlushCh") || hasLeaf(l, "select") {
+						watches = true
+					}
+				}
+			}
+			r.Check(fnName(fn)+" result hand-back watches the requester", watches && sel.Blocking, p.pos(sel.Pos()), fnName(fn), "the select sending the flush result must have a receive case on the requester's done channel")
+		})
+	}
 }
